@@ -723,6 +723,39 @@ example :
         = [(SIGUSR1, 1)] := by
   decide
 
+/-! ## One `trap` command with several conditions -/
+
+/-- ★ `trap_command_sets_every_condition` — the per-condition loop of the built-in
+    (`Command::execute`, `SetAction`): for every action, origin, override flag, list of conditions
+    (in any order, with repetitions, with KILL/STOP or ignored-on-entry signals anywhere in it) and
+    every listed condition `c` other than KILL/STOP that is not ignored on entry (`refused`), the
+    command leaves `c` with exactly that action — whatever stands before or after `c` in the list:
+    an ignored-on-entry or failing condition never makes the loop skip the others — and, in a
+    reachable state, with the disposition `max internal action` installed.  (An ignored-on-entry
+    condition itself stays `{Ignore, Inherited}`: `initially_ignored_sticky`.) -/
+theorem trap_command_sets_every_condition (init : Nat → Disp) (hinit : ∀ s, init s ≠ .catch)
+    (st : State) (h : Inv init st) (a : Action) (origin : Nat) (ov : Bool) (conds : List Nat) (c : Nat)
+    (hm : c ∈ conds) (hk : c ≠ SIGKILL) (hs : c ≠ SIGSTOP) (hr : refused st c ov = false) :
+    ∃ g, get (setActions a origin ov conds st).1.traps c = some g
+      ∧ g.current = { action := a, origin := .user origin, pending := false }
+      ∧ (c ≠ 0 → (setActions a origin ov conds st).1.sys.disp c = g.internal.max a.toDisp) := by
+  obtain ⟨g, hg, hn⟩ := setActions_sets_each a origin ov conds st c hm hk hs hr
+  refine ⟨g, hg, hn, ?_⟩
+  intro h0
+  have hinv := (inv_setActions init hinit a origin ov conds st h).disp c h0
+  rw [hinv, hg, expected_some, hn]
+  rfl
+
+/-- non-vacuity (the shape of the round-5 seed): `trap 'cmd' HUP INT TERM EXIT` with HUP ignored on
+    entry: HUP stays ignored, INT, TERM and EXIT get the action -/
+example :
+    let init : Nat → Disp := fun s => if s = 1 then .ignore else .default
+    let st := (setActions (.command 7) 0 false [1, SIGINT, SIGTERM, 0] (State.init init)).1
+    refused (State.init init) 1 false = true ∧ refused (State.init init) SIGTERM false = false
+    ∧ st.sys.disp 1 = .ignore ∧ st.sys.disp SIGINT = .catch ∧ st.sys.disp SIGTERM = .catch
+    ∧ (getState st.traps 0).1 = some { action := .command 7, origin := .user 0, pending := false } := by
+  decide
+
 /-! ## Shell-level histories: `TrapSet` operations and `trap` commands in any order -/
 
 /-- what a shell does to its trap set: a `TrapSet` operation, or a whole `trap` command -/
